@@ -242,7 +242,8 @@ impl<'c> Exec<'c> {
             // Second read into an owned buffer.
             let region = req.regions.iter().find(|r| r.what == "buffer").cloned();
             let size = region.as_ref().map_or(0, |r| r.len);
-            let n = ((frac as usize) * (size + 1)) >> 16;
+            // (Huge buffers only get their first pages written.)
+            let n = ((frac as usize) * (size.min(8192) + 1)) >> 16;
             let data: Vec<u8> = (0..n).map(|j| byte(serial as usize, j)).collect();
             if let Some(r) = &region {
                 if !sim::regions::write_region(r, 0, &data) {
